@@ -130,6 +130,8 @@ Emit ==
     ELSE IF Len(t) = 4
     THEN PrintT(<<"CASE", ToJson([op |-> "epair", a0 |-> t[1], a1 |-> t[2], b0 |-> t[3], b1 |-> t[4],
                                   cs |-> CrossingSign(t[1], t[2], t[3], t[4]),
+                                  pole |-> \/ (t[3] # t[4] /\ (IsZero(Foot(t[1], t[3], t[4])) \/ IsZero(Foot(t[2], t[3], t[4]))))
+                                           \/ (t[1] # t[2] /\ (IsZero(Foot(t[3], t[1], t[2])) \/ IsZero(Foot(t[4], t[1], t[2])))),
                                   min |-> PairMinCos(t[1], t[2], t[3], t[4]),
                                   max |-> PairMaxCos(t[1], t[2], t[3], t[4])])>>)
     ELSE TRUE
